@@ -388,7 +388,9 @@ class ProgGen:
         sub = lambda t: self.demand(t, self.expr(t, d - 1, env))
         if ty == "int":
             if k < 3:
-                return ["("] + sub("int") + [" ", r.pick(["+", "-", "*"]), " "] + sub("int") + [")"]
+                # operands in their own parentheses: a literal site is never directly preceded by a
+                # `-` token, so replacing it by 2147483648 is out of range by the language rules
+                return ["(("] + sub("int") + [") ", r.pick(["+", "-", "*"]), " ("] + sub("int") + ["))"]
             if k == 3:
                 return ["(if "] + self.demand("bool", self.expr("bool", d - 1, env), "if-cond:") + [" { "] + self.expr("int", d - 1, env) + [" } else { "] + sub("int") + [" })"]
             if k == 4:
@@ -406,7 +408,7 @@ class ProgGen:
                 return ["Util.id<int>("] + sub("int") + [")"]
             if k == 8:
                 return [Site("targ-arity", ["Util.id<int>"], [("extra-targ", "Util.id<int, bool>")]), "("] + sub("int") + [")"]
-            return ["(-"] + sub("int") + [")"] if r.chance(1, 2) else self.var("int", env)
+            return ["(-("] + sub("int") + ["))"] if r.chance(1, 2) else self.var("int", env)
         if ty == "bool":
             if k < 3:
                 return ["("] + sub("int") + [" ", r.pick(["<", "<=", ">", ">=", "==", "!="]), " "] + sub("int") + [")"]
@@ -536,7 +538,8 @@ def sample_sites(text):
                  or (after[:1] == "-" and after[:2] != "->"))
         for lab, bad in RANGE_BADS:
             sites.append(("literal-range", lab, s, e, bad))
-        sites.append(("literal-range", "2147483648", s, e, "2147483648"))
+        if before[-1:] != "-":      # `-2147483648` is a 32-bit literal: not a fault
+            sites.append(("literal-range", "2147483648", s, e, "2147483648"))
         sites.append(("unbound-variable", "zz9", s, e, "zz9Unbound"))
         if arith and before[-1:] != "-":
             sites.append(("operand-type", "int<-true", s, e, "true"))
@@ -963,3 +966,236 @@ def check_mutants(ctx, rng, n_generated, n_sample, stats, hist, errkinds, sample
                            "answer": a, "why": why})
 
 
+# ------------------------------------------------------------------ branch joins (if / else-if chains, if-let chains, match arms)
+
+JOIN_TYPES = {  # source type -> (an expression of exactly that type, model type string)
+    "int": ("a", "i"), "bool": ("b", "b"), "Str": ("s", "n0,0,1()"), "P": ("p", "n0,1,2()"),
+    "Q": ("q", "n0,1,3()"), "Bx<int>": ("bi", "n0,1,4(i)"), "Bx<bool>": ("bb", "n0,1,4(b)"),
+    "unit": ("Process.println(\"u\")", "u")}
+JOIN_USE = {"int": "useI", "bool": "useB", "Str": "useS", "P": "useP", "Q": "useQ", "Bx<int>": "useBi",
+            "Bx<bool>": "useBb", "unit": "useU"}
+JOIN_PRELUDE = (
+    "class P(val v: int) {\n  method get(): int = this.v\n}\n"
+    "class Q(val w: bool) {\n  method get(): bool = this.w\n}\n"
+    "class Bx<T>(val c: T) {\n  method get(): T = this.c\n}\n"
+    "class E(A, B(int), C(bool)) {\n  method k(): int = 0\n}\n"
+    "class E5(V1, V2, V3, V4, V5) {\n  method k(): int = 0\n}\n"
+    "class O(N, S(int)) {\n  method k(): int = 0\n}\n"
+    "class Main {\n" + "".join(f"  function {f}(x: {t}): unit = Process.println(\"k\")\n" for t, f in JOIN_USE.items()))
+JOIN_CONTEXTS = ["ret", "alet", "arg", "ulet", "wild", "stmt"]
+JOIN_CONSTRUCTS = [("if", 2), ("if", 3), ("if", 4), ("if", 5), ("iflet", 2), ("iflet", 3), ("iflet", 4),
+                   ("match-E", 3), ("match-E5", 5), ("match-O", 2)]
+
+
+def join_body(rng, ty, uid):
+    """A branch body of exactly type `ty`, possibly behind a type-preserving wrapper."""
+    v = JOIN_TYPES[ty][0]
+    k = rng.below(5)
+    if k == 0:
+        return f"let z{uid} = 1; {v}"
+    if k == 1:
+        return f"(if b {{ {v} }} else {{ {v} }})"
+    if k == 2:
+        return f"match e {{ A -> {v}, B(_) -> {v}, C(_) -> {v} }}"
+    return v
+
+
+def join_program(rng, construct, n, tys, context, ctx_ty):
+    bodies = [join_body(rng, t, i) for i, t in enumerate(tys)]
+    if construct in ("if", "iflet"):
+        parts = []
+        for i in range(n - 1):
+            if construct == "iflet" and (i == 0 or rng.chance(1, 2)):
+                cond = f"let S(v{i}) = o"
+            else:
+                cond = rng.pick(["b", f"a > {i}", "!b", f"a == {i}"])
+            parts.append(f"if {cond} {{ {bodies[i]} }}")
+        text = " else ".join(parts) + f" else {{ {bodies[-1]} }}"
+    else:
+        pats = {"match-E": ["A", "B(_)", "C(_)"], "match-E5": ["V1", "V2", "V3", "V4", "V5"], "match-O": ["N", "S(_)"]}[construct]
+        subj = {"match-E": "e", "match-E5": "e5", "match-O": "o"}[construct]
+        text = f"match {subj} {{ " + ", ".join(f"{p} -> {{ {b} }}" for p, b in zip(pats, bodies)) + " }"
+    ret = "unit"
+    tail = "Process.println(\"k\")"
+    if context == "ret":
+        ret, body = ctx_ty, text
+    elif context == "alet":
+        body = f"let x: {ctx_ty} = {text};\n    {tail}"
+    elif context == "arg":
+        body = f"Main.{JOIN_USE[ctx_ty]}({text})"
+    elif context == "ulet":
+        body = f"let x = {text};\n    {tail}"
+    elif context == "wild":
+        body = f"let _ = {text};\n    {tail}"
+    else:
+        body = f"{text};\n    {tail}"
+    src = (JOIN_PRELUDE +
+           f"  function t(a: int, b: bool, s: Str, p: P, q: Q, bi: Bx<int>, bb: Bx<bool>, e: E, e5: E5, o: O): {ret} = {{\n"
+           f"    {body}\n  }}\n  function main(): unit = Process.println(\"m\")\n}}\n")
+    return src
+
+
+def check_joins(ctx, rng, rounds, stats, hist):
+    """Every branch position of every joining construct, in constrained and unconstrained
+    contexts. Which programs are ill-typed comes from the Lean model of the join rule
+    (`ifChainOk` / `matchArmsOk`, theorems ifChain_join_exact / match_join_exact); the real checker
+    must agree on every case, and a rejected-by-the-model program must be rejected in module Main
+    with compile_sources returning Err."""
+    cases = []
+    tynames = list(JOIN_TYPES)
+    for _ in range(rounds):
+        for construct, n in JOIN_CONSTRUCTS:
+            for context in JOIN_CONTEXTS:
+                for pos in [None] + list(range(n)):
+                    base = rng.pick(tynames)
+                    wrong = rng.pick([t for t in tynames if t != base])
+                    tys = [base] * n
+                    if pos is not None:
+                        tys[pos] = wrong
+                    cases.append((construct, n, context, pos, tys, join_program(rng.fork(), construct, n, tys, context, base)))
+    model = run_model([f"join {'match' if c[0].startswith('match') else 'if'} " + " ".join(JOIN_TYPES[t][1] for t in c[4]) for c in cases])
+    answers = eval_programs([{"sources": {"Main": c[5]}, "entry": "Main", "std": False, "compile": True} for c in cases])
+    for (construct, n, context, pos, tys, src), m, ans in zip(cases, model, answers):
+        stats["join"] += 1
+        label = f"{construct}{n}/{context}/" + ("ok" if pos is None else f"branch{pos}")
+        hist["join:" + construct] = hist.get("join:" + construct, 0) + 1
+        accepted = ans.get("check") == "done" and not ans["errors"] and ans.get("compile") == "ok"
+        why = judge_mutant(ans, "Main")
+        spec_reject = pos is not None
+        if m not in ("0", "1") or (m == "0") != spec_reject:
+            ctx.violation("model of the branch-join rule disagrees with its own specification", {"protocol": "join", "case": label, "types": tys, "model": m,
+                                                                                            "broken": "Model/Assign.lean ifChainOk/matchArmsOk"}, no_input=True)
+            continue
+        if spec_reject:
+            if why is None:
+                stats["join_rejected"] += 1
+            else:
+                stats["join_slipped"] += 1
+                if stats["join_slipped"] <= 4:
+                    ctx.violation(f"wrongly typed branch not rejected ({label}: branch types {tys}): {why}",
+                                  {"protocol": "prog", "mutant": "branch-join " + label, "module": "Main",
+                                   "program": {"sources": {"Main": src}, "entry": "Main", "std": False, "compile": True},
+                                   "answer": ans, "why": why, "model_says": "rejected (ifChain_join_exact / match_join_exact)"})
+        elif not accepted:
+            stats["join_base_rejected"] += 1
+            if stats["join_base_rejected"] <= 2:
+                ctx.violation(f"well-typed join program not accepted ({label}); model and front end disagree",
+                              {"protocol": "prog", "mutant": "branch-join " + label, "module": "Main",
+                               "program": {"sources": {"Main": src}, "entry": "Main", "std": False, "compile": True},
+                               "answer": ans, "broken": "join correspondence (accept side)"}, no_input=True)
+        else:
+            stats["join_accepted"] += 1
+
+
+
+def shrink_program(prog, module, base):
+    """Structural shrinking of a generated mutant: drop whole `function fK` definitions of the
+    mutated module that are identical to the base program's (so the fault stays), as long as the
+    property still fails; `main` is rewritten to print a constant."""
+    if not base or module not in base:
+        return prog
+    def fails(p):
+        return judge_mutant(eval_programs([p])[0], module) is not None
+    split = lambda t: re.split(r"(?=  function (?:f\d+|main)\()", t)
+    mp, bp = split(prog["sources"][module]), split(base[module])
+    if len(mp) != len(bp) or len(mp) < 3:
+        return prog
+    keep = list(range(1, len(mp) - 1))
+    for i in list(keep):
+        if mp[i] != bp[i]:
+            continue
+        cand = [k for k in keep if k != i]
+        t = mp[0] + "".join(mp[k] for k in cand) + "  function main(): unit = Process.println(\"x\")\n}\n"
+        p = dict(prog); p["sources"] = dict(prog["sources"]); p["sources"][module] = t
+        if fails(p):
+            keep, prog = cand, p
+    return prog
+
+
+def run(ctx):
+    res = common.proof_gate(ctx, None)
+    rng = ctx.rng
+    stats = {k: 0 for k in ["tok", "tok_disagree", "tok_literals", "tok_out_of_range", "tok_f1", "lit", "lit_f1",
+                            "asg", "asg_disagree", "asg_accept", "asg_anyfree", "slv", "slv_accept",
+                            "join", "join_rejected", "join_accepted", "join_slipped", "join_base_rejected", "base_programs", "mutants", "mutants_rejected", "mutants_slipped", "tok_oracle_fail", "slv_disagree", "asg_spec_fail", "prog_f1", "prog_f2",
+                            "sample_sites_total", "sample_bases_accepted"]}
+    hist, errkinds, samples_out = {}, {}, []
+    built = os.path.exists(common.harness_bin("C06")) and os.path.exists(common.driver_bin("C06")) and \
+        not any(n == "build" for n, _ in res["failed"])
+    if built:
+        # corpus first
+        cdir = os.path.join(common.VERIF, "corpus", "C06")
+        corpus = []
+        for f in sorted(os.listdir(cdir)) if os.path.isdir(cdir) else []:
+            for l in open(os.path.join(cdir, f), encoding="utf-8"):
+                l = l.strip()
+                if l and not l.startswith("#"):
+                    toks = [("m",) if w == "m" else ("i", int(w[1:])) if w[0] == "i" else ("o", int(w[1:])) for w in l.split()]
+                    corpus.append((toks, " ".join(layout_plain(toks))))
+        if corpus:
+            check_tok_cases(ctx, corpus, stats)
+        ntok = ctx.scale(10000, 100000)
+        cases = []
+        for i in range(ntok):
+            r = rng.fork()
+            toks = gen_stream(r, guarded=(i % 5 != 0))
+            cases.append((toks, layout(r, toks)))
+        cases.append(([("o", 0), ("i", P31)], "( 2147483648"))          # dedicated probe of C06-F1
+        check_tok_cases(ctx, cases, stats)
+        check_lit(ctx, rng, ctx.scale(1500, 20000), stats)
+        check_types(ctx, rng, ctx.scale(20000, 300000), stats)
+        check_joins(ctx, rng, ctx.scale(2, 20), stats, hist)
+        check_mutants(ctx, rng, ctx.scale(1600, 12000), ctx.scale(500, 8000), stats, hist, errkinds, samples_out)
+    ctx.cov.update({
+        "evaluations": stats["tok"] + stats["lit"] + stats["asg"] + stats["slv"] + stats["mutants"] + stats["join"],
+        "distinct_nontrivial": stats["tok_out_of_range"] + stats["asg_accept"] + stats["slv_accept"] + stats["mutants_rejected"] + stats["join_rejected"],
+        "rule": "evaluations = token streams + literal expressions + type pairs + constraint problems + program mutants, each run "
+                "through the real crates; non-trivial = out-of-range literals inside token streams + type pairs the kernel "
+                "accepts (consistent up to any-holes; most pairs differ in one deep position) + accepted constraint problems "
+                "+ single-fault mutants that were actually type-checked and rejected with an error in the mutated module",
+        "samples": samples_out,
+        "traces_validated_against_impl": stats["tok"] + stats["lit"] + stats["asg"] + stats["slv"],
+        "counters": stats, "mutant_kind_histogram": hist, "error_kind_histogram": errkinds,
+        "partial_theorems": {
+            "int_range_exact_partial": "side condition: the literal is not 2^31, or is the first token, or directly follows '-'",
+            "accepted_literals_faithful_partial": "side condition Guarded: every literal 2^31 is the first token or directly follows '-'"},
+        "counterexample_theorems": ["int_range_exact_counterexample", "accepted_literals_faithful_counterexample"],
+        "pending": ["solve_sound (no error => concrete is an instance of generic) is checked by the slv oracle only",
+                    "assignable_iff_consistent (existence of a common any-free refinement) stated in the oracle only",
+                    "visibility / name-resolution / exhaustiveness models: mutant oracle only"]})
+    ctx.assumptions += ["valid UTF-8 sources", "integer literal text matches the lexer regex 0|[1-9][0-9]* (checked by the tok correspondence)",
+                        "reasons/locations are not part of a type's identity (dropped in Model/Assign.lean)"]
+    return ctx.finish(res, trusted=common.TRUSTED_COMMON + [
+        "hand-written models Model/IntRange.lean, Model/Assign.lean (HashMap substitution as association list)",
+        "hooks: samlang_parser::verif_hooks (token dump), samlang_checker::verif_hooks_c06 (re-exports of type_system kernels)",
+        "the mutant generator's claim that each edit is ill-typed by the language rules (vlib/c06.py ProgGen / sample_sites)",
+        "not modelled: inference engine deciding where `any` placeholders arise, SSA/name resolution, visibility, interface "
+        "conformance walk, pattern exhaustiveness (C07), compile_sources' error gate — reached by the mutant oracle only"])
+
+
+def replay(ctx, path):
+    common.build_harness("C06"); common.build_lean(["drv-c06"])
+    data = json.load(open(path))
+    r = data.get("replay", data)
+    proto = r.get("protocol")
+    if proto == "tok":
+        toks = [("m",) if w == "m" else ("i", int(w[1:])) if w[0] == "i" else ("o", int(w[1:])) for w in r["raw"]]
+        text = r.get("text") or " ".join(layout_plain(toks))
+        ia = run_impl(["tok " + hexs(text)])[0]
+        ma = run_model(["tok " + " ".join(r["raw"])])[0]
+        print("text :", repr(text)); print("impl :", canon_tok_answer(ia)[0]); print("model:", ma)
+        return 1 if canon_tok_answer(ia)[0] != ma.split(" V ")[0] or oracle_fails_tok(toks) else 0
+    if proto == "lit":
+        print(run_impl(["lit " + hexs(r["text"])])[0]); return 1
+    if proto in ("asg", "slv"):
+        ia, ma = run_impl([r["line"]])[0], run_model([r["line"]])[0]
+        print("impl :", ia); print("model:", ma)
+        return 1 if ia != ma else 0
+    if proto == "prog":
+        a = eval_programs([r["program"]])[0]
+        print(json.dumps(a, indent=1))
+        why = judge_mutant(a, r["module"])
+        print("property:", why or "holds")
+        return 1 if why else 0
+    print(json.dumps(data, indent=1))
+    return 1
